@@ -98,6 +98,19 @@ def run(tier, seed):
     obs_list = [obs[c["name"]] for c in cases if c["name"] in obs]
     # E3: TLC judges every observed Start call against Handshake!Decide and the property predicates
     r2, dev = vlib.judge_observations("TraceHandshake", "trace_handshake.cfg", obs_list, "c01")
+    # a latency over the limit is a real-time verdict: it counts only if it reproduces when the case runs alone
+    slow_names = [n for n in dev if not obs[n]["out"].get("panic") and obs[n]["out"]["ms"] > obs[n]["out"]["limit_ms"]]
+    if slow_names:
+        obs2, _ = vlib.run_cases(binary, "TestHandshakeCases", [by[n] for n in slow_names], "c01c", shards=1, env={"VERIF_WORKERS": "1"})
+        ol2 = [o for o in obs2.values() if not o.get("hang")]
+        dev2 = set(vlib.judge_observations("TraceHandshake", "trace_handshake.cfg", ol2, "c01c")[1]) if ol2 else set()
+        for n in slow_names:
+            if n in dev2 or obs2.get(n, {}).get("hang"):
+                if n in obs2 and not obs2[n].get("hang"):
+                    obs[n] = obs2[n]
+            else:
+                rep.coverage.setdefault("unconfirmed", []).append(n)
+        dev = [n for n in dev if n not in slow_names or n in dev2 or obs2.get(n, {}).get("hang")]
     for name in dev:
         o = obs[name]
         out = o["out"]
